@@ -66,6 +66,7 @@ func devMain(args []string) int {
 	if *pad > 0 {
 		g.PadTo(*pad)
 	}
+	g.Controls()
 	if *stats {
 		cnt := map[string][2]int{}
 		for _, rs := range g.Res {
@@ -160,6 +161,7 @@ func roundtripMain(args []string) int {
 			nbeh++
 		}
 	}
+	cover := map[string]int{}
 	RunProbe(lg, &stt)
 	for wn := 0; wn < *nwl; wn++ {
 		wseed := *seed + int64(1000*wn)
@@ -167,7 +169,27 @@ func roundtripMain(args []string) int {
 		g := NewGen(wseed)
 		g.Base()
 		g.Tail(*tail)
+		g.Controls()
 		g.Finish()
+		for k, v := range g.Cover {
+			cover[k] += v
+		}
+		fctx := g.C.ReadCtx()
+		cover["killSwitchRecords"] += len(g.C.App.EsmKeeper.GetAllKillSwitchData(fctx))
+		cover["esmStatusRecords"] += len(g.C.App.EsmKeeper.GetAllESMStatus(fctx))
+		cover["esmUserDeposits"] += len(g.C.App.EsmKeeper.GetAllUserDepositByApp(fctx))
+		cover["esmCoolOffData"] += len(g.C.App.EsmKeeper.GetAllDataAfterCoolOff(fctx))
+		cover["lockerRewardTrackers"] += len(g.C.App.Rewardskeeper.GetAllLockerRewardTracker(fctx))
+		for _, r := range g.Res {
+			for _, t := range r {
+				if t.OK && t.Tag == "vault.interest" {
+					cover["vaultInterestCalcs"]++
+				}
+				if t.OK && t.Tag == "cfg.liquidity.params" {
+					cover["extremeParamSets"]++
+				}
+			}
+		}
 		root := lg.Add(0, run, "Init", map[string]interface{}{"seed": wseed, "blocks": len(g.W.Blocks)}, nil, map[string]interface{}{"h": 1})
 		o := NewFresh(Funds())
 		parent := root
@@ -176,7 +198,7 @@ func roundtripMain(args []string) int {
 				lg.Add(parent, run, "Halt", map[string]interface{}{"k": b.Index, "h": b.Height}, b, map[string]interface{}{"h": b.Height})
 				return false
 			}
-			if (b.Index+1)%*every == 0 || b.Index == len(g.W.Blocks)-1 {
+			if (b.Index+1)%*every == 0 || b.Index == len(g.W.Blocks)-1 || (g.CtlFrom > 0 && b.Index >= g.CtlFrom) {
 				parent = RoundTrip(o, lg, parent, run, map[string]interface{}{"k": b.Index, "h": b.Height}, true, &stt)
 			}
 			return true
@@ -186,6 +208,7 @@ func roundtripMain(args []string) int {
 		fmt.Fprintln(os.Stderr, err)
 		return 1
 	}
+	_ = sim.WriteJSON(*out+".cover.json", cover)
 	fmt.Printf("roundtrip: nodes=%d behaviours=%d %+v\n", len(lg.Nodes), nbeh, stt)
 	return 0
 }
